@@ -6,7 +6,7 @@ F = 'sv-parser-syntaxtree/src/any_node.rs'
 out = []
 def impl(sel, from_view, label, param, extra=''):
     out.append("//@implhdr %s | ~%s" % (F, sel))
-    out.append("    open spec fn from_view(x: %s) -> Seq<RefNode<'static>> { %s }   //: C16.conv.%s C16,C01" % (param, from_view, label))
+    out.append("    open spec fn from_view(x: %s) -> Seq<RefNode<'static>> { %s }   //: C16.conv.%s C16,C01,C08" % (param, from_view, label))
     out.append("//@fn %s | ~%s | from" % (F, sel))
     if extra:
         out.append(extra)
